@@ -29,8 +29,9 @@ Section CopySafe.
   Variables tn tn' : str -> str.
   Variables acc acc' : str -> str -> Prop.
   Variables rh rh' wh wh' : fhandle -> str -> nat -> Prop.
-  Hypothesis HLa : api_laws a V V' tn acc rh wh.
-  Hypothesis HLa' : api_laws a' V' V tn' acc' rh' wh'.
+  Variables hid hid' anc anc' : str -> Prop.
+  Hypothesis HLa : api_laws a V V' tn acc rh wh hid anc.
+  Hypothesis HLa' : api_laws a' V' V tn' acc' rh' wh' hid' anc'.
   Hypothesis HCa : api_crash_laws a V.
   Hypothesis HCa' : api_crash_laws a' V'.
 
@@ -79,7 +80,7 @@ Section CopySafe.
     safe I (ignore_permission (chown_to a info p)) w.
   Proof.
     intros Hat HI Hread.
-    destruct (lstat_step a V V' tn acc rh wh HLa w p n Hat) as (old & w1 & Hrun1 & Hsr1 & HV1 & _).
+    destruct (lstat_step a V V' tn acc rh wh hid anc HLa w p n Hat) as (old & w1 & Hrun1 & Hsr1 & HV1 & _).
     apply safe_ignore_permission. unfold chown_to.
     eapply safe_bind_ok; [exact Hrun1 | |].
     - apply safe_call; [apply (claw_lstat _ _ HCa) | exact (at_node_quiet _ _ _ Hat) | exact HI].
@@ -92,26 +93,26 @@ Section CopySafe.
     quiet w -> swf (V w) -> sdirect (V w) p -> p <> s_root -> fi_kind fi = KDir ->
     (0 <= fi_uid fi)%Z -> (0 <= fi_gid fi)%Z ->
     (V w !! p = None \/ sdir (V w) p) ->
-    K (V w !! p) -> (forall m, K (Some (Dir m))) ->
+    K (V w !! p) -> (forall m, K (Some (Dir m))) -> ~ hid p ->
     safe (mid K w p) (copy_dir a p fi) w.
   Proof.
-    intros Hq Hwf Hdir Hne Hk Hu Hg Hcase HK0 HKd.
-    destruct (mkdirall_step a V V' tn acc rh wh HLa w p (perm9 fi) Hq Hwf Hdir Hcase)
+    intros Hq Hwf Hdir Hne Hk Hu Hg Hcase HK0 HKd Hnh.
+    destruct (mkdirall_step a V V' tn acc rh wh hid anc HLa w p (perm9 fi) Hq Hwf Hdir Hcase Hnh)
       as (w1 & m1 & Hrun1 & Hpost1 & Hp1).
     pose proof Hpost1 as (Hsr01 & Hwf1 & He01).
     assert (Hat1 : at_node V w1 p (Dir m1)).
     { split; [| split]; [| exact Hwf1 | exact Hp1]. eapply quiet_same_rest; eassumption. }
-    destruct (lstat_step a V V' tn acc rh wh HLa w1 p (Dir m1) Hat1)
+    destruct (lstat_step a V V' tn acc rh wh hid anc HLa w1 p (Dir m1) Hat1)
       as (nfi & w2 & Hrun2 & Hsr2 & HV2 & Him2 & Hmt2).
     pose proof (read_at_node V V' w1 w2 p _ Hat1 Hsr2 HV2) as Hat2.
     destruct Him2 as (_ & Hperm2 & _).
-    destruct (fix_mode_step a V V' tn acc rh wh HLa w2 p (Dir m1) nfi fi Hat2 (not_is_link_dir m1) Hperm2)
+    destruct (fix_mode_step a V V' tn acc rh wh hid anc HLa w2 p (Dir m1) nfi fi Hat2 (not_is_link_dir m1) Hperm2)
       as (w3 & Hrun3 & Hupd3).
     set (n3 := with_meta (Dir m1) (set_perm (mode12 fi))) in *.
     assert (Hat3 : at_node V w3 p n3).
     { eapply upd_at_node; [exact Hat2 | exact Hupd3 | reflexivity |].
       unfold n3, perm12, mode12. simpl. rewrite !land4095_idem. reflexivity. }
-    destruct (fix_mt_step a V V' tn acc rh wh HLa w3 p n3 nfi fi Hat3 (not_is_link_dir _) Hmt2)
+    destruct (fix_mt_step a V V' tn acc rh wh hid anc HLa w3 p n3 nfi fi Hat3 (not_is_link_dir _) Hmt2)
       as (w4 & Hrun4 & Hupd4).
     set (n4 := with_meta n3 (set_mt (fi_mt fi))) in *.
     assert (Hat4 : at_node V w4 p n4).
@@ -165,7 +166,7 @@ Section CopySafe.
     assert (Hself : copying c w p w).
     { split; [apply same_rest_refl |]. exists m, pos. symmetry. apply insert_id. exact Hp. }
     simpl io_copy.
-    pose proof (law_hread _ _ _ _ _ _ _ HLa' w src ps pos ms c Hq Hrh Hps) as Hread.
+    pose proof (law_hread _ _ _ _ _ _ _ _ _ HLa' w src ps pos ms c Hq Hrh Hps) as Hread.
     destruct (skipn pos c) as [|x rest] eqn:Hskip.
     - destruct Hread as (h' & w1 & Hrun & HV'1 & Hsr1).
       eapply safe_bind_ok; [exact Hrun | |].
@@ -178,7 +179,7 @@ Section CopySafe.
       pose proof (quiet_same_rest V' w w1 Hq Hsr1') as Hq1.
       assert (Hp1 : V w1 !! p = Some (File m (firstn pos c))) by (rewrite HV1; exact Hp).
       assert (Hlen : length (firstn pos c) = pos) by (apply firstn_length_le; exact Hpos).
-      destruct (law_hwrite _ _ _ _ _ _ _ HLa w1 dst p pos m (firstn pos c) data Hq1 Hwh Hp1 Hlen)
+      destruct (law_hwrite _ _ _ _ _ _ _ _ _ HLa w1 dst p pos m (firstn pos c) data Hq1 Hwh Hp1 Hlen)
         as (h2 & t' & (w2 & Hrun2 & HV2 & Hsr2) & Hwh2).
       pose proof (quiet_same_rest V' w1 w2 Hq1 Hsr2) as Hq2.
       assert (Hp2 : V w2 !! p = Some (File (set_mt t' m) (firstn (pos + length data) c))).
@@ -216,11 +217,11 @@ Section CopySafe.
     quiet w -> swf (V w) -> sdirect (V w) p ->
     (V w !! p = None \/ exists m0 c0, V w !! p = Some (File m0 c0)) ->
     rh' src ps 0 -> V' w !! ps = Some (File ms c) -> small c ->
-    K (V w !! p) -> (forall m' c', is_prefix c' c -> K (Some (File m' c'))) ->
+    K (V w !! p) -> (forall m' c', is_prefix c' c -> K (Some (File m' c'))) -> ~ hid p ->
     safe (mid K w p) (write_file a p perm src) w.
   Proof.
-    intros Hq Hwf Hdir Hcase Hrh Hps Hsmall HK0 HKf.
-    destruct (openfile_step a V V' tn acc rh wh HLa w p perm Hq Hwf Hdir Hcase)
+    intros Hq Hwf Hdir Hcase Hrh Hps Hsmall HK0 HKf Hnh.
+    destruct (openfile_step a V V' tn acc rh wh hid anc HLa w p perm Hq Hwf Hdir Hcase Hnh)
       as (file & w1 & m1 & Hrun1 & Hwh & Hpost1 & Hp1).
     pose proof Hpost1 as (Hsr01 & Hwf1 & He01).
     assert (Hat1 : at_node V w1 p (File m1 [])).
@@ -233,7 +234,7 @@ Section CopySafe.
       assert (Hmono : (chunk_size * (tree_fuel - 2) <= chunk_size * (tree_fuel - 1))%nat).
       { apply Nat.mul_le_mono_l. lia. }
       lia. }
-    destruct (io_copy_spec a a' V V' tn tn' acc acc' rh rh' wh wh' HLa HLa'
+    destruct (io_copy_spec a a' V V' tn tn' acc acc' rh rh' wh wh' hid hid' anc anc' HLa HLa'
                 tree_fuel w1 file src p ps 0 m1 ms c (proj1 Hat1) Hp1
                 ltac:(lia) Hwh Hrh Hps1 Hfuel1 Hfuel2)
       as (w2 & m2 & Hrun2 & Hsr2 & HV2 & Hperm2).
@@ -262,16 +263,16 @@ Section CopySafe.
     (0 <= fi_uid fi)%Z -> (0 <= fi_gid fi)%Z ->
     (V w !! p = None \/ exists m0 c0, V w !! p = Some (File m0 c0)) ->
     rh' src ps 0 -> V' w !! ps = Some (File ms c) -> small c ->
-    K (V w !! p) -> (forall m' c', is_prefix c' c -> K (Some (File m' c'))) ->
+    K (V w !! p) -> (forall m' c', is_prefix c' c -> K (Some (File m' c'))) -> ~ hid p ->
     safe (mid K w p) (copy_file a p fi src) w.
   Proof.
-    intros Hq Hwf Hwf' Hdir Hk Hu Hg Hcase Hrh Hps Hsmall HK0 HKf.
+    intros Hq Hwf Hwf' Hdir Hk Hu Hg Hcase Hrh Hps Hsmall HK0 HKf Hnh.
     assert (HKc : forall m', K (Some (File m' c))) by (intros m'; apply HKf; apply is_prefix_refl).
-    destruct (write_file_spec a a' V V' tn tn' acc acc' rh rh' wh wh' HLa HLa'
-                w p (perm9 fi) src ps ms c Hq Hwf Hdir Hcase Hrh Hps Hsmall)
+    destruct (write_file_spec a a' V V' tn tn' acc acc' rh rh' wh wh' hid hid' anc anc' HLa HLa'
+                w p (perm9 fi) src ps ms c Hq Hwf Hdir Hcase Hrh Hps Hsmall Hnh)
       as (w1 & m1 & Hrun1 & Hpost1 & Hat1).
     pose proof Hpost1 as (Hsr01 & Hwf1 & He01).
-    destruct (chown_to_step a V V' tn acc rh wh HLa w1 p (File m1 c) fi Hat1 (not_is_link_file _ _) Hu Hg)
+    destruct (chown_to_step a V V' tn acc rh wh hid anc HLa w1 p (File m1 c) fi Hat1 (not_is_link_file _ _) Hu Hg)
       as (w2 & n2 & Hrun2 & Hupd2 & Hn2 & Huid2 & Hgid2).
     assert (Hn2' : exists m2, n2 = File m2 c /\ perm12 n2).
     { pose proof (swf_lookup_perm12 _ _ _ (proj1 (proj2 Hat1)) (proj2 (proj2 Hat1))) as H12.
@@ -280,11 +281,11 @@ Section CopySafe.
       - eexists. split; [reflexivity |]. apply (chown_node_perm12 (File m1 c)). exact H12. }
     destruct Hn2' as (m2 & -> & H12).
     pose proof (upd_at_node V V' w1 w2 p _ _ Hat1 Hupd2 eq_refl H12) as Hat2.
-    destruct (lstat_step a V V' tn acc rh wh HLa w2 p (File m2 c) Hat2)
+    destruct (lstat_step a V V' tn acc rh wh hid anc HLa w2 p (File m2 c) Hat2)
       as (nfi & w3 & Hrun3 & Hsr3 & HV3 & Him3 & Hmt3).
     pose proof (read_at_node V V' w2 w3 p _ Hat2 Hsr3 HV3) as Hat3.
     destruct Him3 as (_ & Hperm3 & _).
-    destruct (fix_mode_step a V V' tn acc rh wh HLa w3 p (File m2 c) nfi fi Hat3 (not_is_link_file _ _) Hperm3)
+    destruct (fix_mode_step a V V' tn acc rh wh hid anc HLa w3 p (File m2 c) nfi fi Hat3 (not_is_link_file _ _) Hperm3)
       as (w4 & Hrun4 & Hupd4).
     set (n4 := with_meta (File m2 c) (set_perm (mode12 fi))) in *.
     assert (H12_4 : perm12 n4).
@@ -303,7 +304,7 @@ Section CopySafe.
     { eapply (mid_upd w w1 w4 p n4); [exact Hsr01 | exact He01 | exact Hupd14 |]. unfold n4. simpl. apply HKc. }
     unfold copy_file. rewrite Hk. apply safe_wrap_other.
     eapply safe_bind_ok; [exact Hrun1 | |].
-    { exact (write_file_safe w p (perm9 fi) src ps ms c Hq Hwf Hdir Hcase Hrh Hps Hsmall HK0 HKf). }
+    { exact (write_file_safe w p (perm9 fi) src ps ms c Hq Hwf Hdir Hcase Hrh Hps Hsmall HK0 HKf Hnh). }
     eapply safe_bind_ok; [exact Hrun2 | |].
     { apply (chown_to_safe _ w1 p (File m1 c) fi Hat1 Hm1).
       intros w' Hsr' HV'. exact (mid_read w w1 w' p Hm1 Hsr' HV'). }
@@ -321,18 +322,18 @@ Section CopySafe.
     quiet w -> swf (V w) -> swf (V' w) -> snolinkpar (V' w) p -> V' w !! p = Some (Link ms t) ->
     sdirect (V w) p -> V w !! p = None -> fi_kind fi = KLink ->
     t <> [] -> acc t p ->
-    K None -> (forall m', K (Some (Link m' (tn t)))) ->
+    K None -> (forall m', K (Some (Link m' (tn t)))) -> ~ hid p ->
     safe (mid K w p) (copy_symlink a' a p fi) w.
   Proof.
-    intros Hq Hwf Hwf' Hnlp' Hlink Hdir Hnone Hk Htne Hacc HK0 HKl.
-    destruct (law_readlink _ _ _ _ _ _ _ HLa' w p ms t Hq Hwf' Hnlp' Hlink)
+    intros Hq Hwf Hwf' Hnlp' Hlink Hdir Hnone Hk Htne Hacc HK0 HKl Hnh.
+    destruct (law_readlink _ _ _ _ _ _ _ _ _ HLa' w p ms t Hq Hwf' Hnlp' Hlink)
       as (w1 & Hrun1 & HV'1 & Hsr1).
     destruct (same_rest_swap V V' w w1 HV'1 Hsr1) as [HV1 Hsr1'].
     pose proof (quiet_same_rest V' w w1 Hq Hsr1') as Hq1.
     assert (Hwf1 : swf (V w1)) by (rewrite HV1; exact Hwf).
     assert (Hdir1 : sdirect (V w1) p) by (rewrite HV1; exact Hdir).
     assert (Hnone1 : V w1 !! p = None) by (rewrite HV1; exact Hnone).
-    destruct (law_symlink _ _ _ _ _ _ _ HLa w1 t p Hq1 Hwf1 Hdir1 Hnone1 Htne Hacc)
+    destruct (law_symlink _ _ _ _ _ _ _ _ _ HLa w1 t p Hq1 Hwf1 Hdir1 Hnone1 Htne Hacc Hnh)
       as (m2 & s2 & (w2 & Hrun2 & HV2 & Hsr2) & Hp2 & Hperm2 & Heqv2 & Hwf2).
     subst s2.
     pose proof (quiet_same_rest V' w1 w2 Hq1 Hsr2) as Hq2.
@@ -361,7 +362,8 @@ Section RealPathSafe.
   Variable tn : str -> str.
   Variable acc : str -> str -> Prop.
   Variables rh wh : fhandle -> str -> nat -> Prop.
-  Hypothesis HLa : api_laws a V V' tn acc rh wh.
+  Variables hid anc : str -> Prop.
+  Hypothesis HLa : api_laws a V V' tn acc rh wh hid anc.
   Hypothesis HCa : api_crash_laws a V.
 
   (** since [w] nothing changed but traces and tick counters *)
@@ -385,7 +387,7 @@ Section RealPathSafe.
     - cbn [resolve_loop].
       pose proof (Hnlp q (in_eq q rest)) as Hnlpq.
       destruct (V w !! q) as [nd|] eqn:Hsq.
-      + destruct (law_lstat_some _ _ _ _ _ _ _ HLa w q nd Hq Hwf Hnlpq Hsq)
+      + destruct (law_lstat_some _ _ _ _ _ _ _ _ _ HLa w q nd Hq Hwf Hnlpq Hsq)
           as (fi & (w1 & Hrun1 & HV1 & Hsr1) & (Hkind & _) & _).
         pose proof (quiet_same_rest V' w w1 Hq Hsr1) as Hq1.
         assert (Hrd1 : rd w w1) by (split; assumption).
@@ -416,7 +418,7 @@ Section RealPathSafe.
             - exact Hq1.
             - rewrite HV1. exact Hwf. }
           destruct (fi_kind fi); [exact Hrec | exact Hrec | contradiction Hk; reflexivity].
-      + destruct (law_lstat_none _ _ _ _ _ _ _ HLa w q Hq Hwf Hnlpq Hsq)
+      + destruct (law_lstat_none _ _ _ _ _ _ _ _ _ HLa w q Hq Hwf Hnlpq Hsq)
           as (e & w1 & Hrun1 & Hnf & HV1 & Hsr1).
         eapply safe_bind_ok; [exact (try_err _ w w1 e Hrun1) | |].
         { apply safe_try. apply safe_call; [apply (claw_lstat _ _ HCa) | exact Hq | apply rd_refl]. }
@@ -473,9 +475,10 @@ Section TrySafe.
   Variables tnb tnk : str -> str.
   Variables accb acck : str -> str -> Prop.
   Variables rhb rhk whb whk : fhandle -> str -> nat -> Prop.
+  Variables hid anc : str -> Prop.
   Variable B0 : store.
 
-  Hypothesis HLb : base_laws base Vb Vk tnb accb rhb whb.
+  Hypothesis HLb : base_laws base Vb Vk tnb accb rhb whb hid anc.
   Hypothesis HLk : backup_laws backup Vb Vk tnk acck rhk whk.
   Hypothesis HCb : api_crash_laws base Vb.
   Hypothesis HCk : api_crash_laws backup Vk.
@@ -483,8 +486,8 @@ Section TrySafe.
   Hypothesis Hsmall : all_small B0.
   Hypothesis HwfB0 : swf B0.
 
-  Let Lb : api_laws base Vb Vk tnb accb rhb whb := HLb.
-  Let Lk : api_laws backup Vk Vb tnk acck rhk whk := HLk.
+  Let Lb : api_laws base Vb Vk tnb accb rhb whb hid anc := HLb.
+  Let Lk : api_laws backup Vk Vb tnk acck rhk whk nohid nohid := HLk.
 
   Local Notation recov := (recoverable Vb Vk B0).
   Local Notation inv := (Inv Vb Vk B0).
@@ -604,10 +607,10 @@ Section TrySafe.
       cbv beta iota. destruct info; apply safe_ret. }
     specialize (Hnl eq_refl).
     destruct (Vb w !! sub) as [n|] eqn:Hb.
-    2:{ destruct (backup_required_none base backup Vb Vk tnb tnk accb acck rhb rhk whb whk B0 HLb HLk
+    2:{ destruct (backup_required_none base backup Vb Vk tnb tnk accb acck rhb rhk whb whk hid anc B0 HLb HLk
                     w sub HI Hnlp Hi Hb) as (w' & Hrun & _).
         eapply safe_bind_ok; [exact Hrun | exact Hreq | apply safe_ret]. }
-    destruct (backup_required_some base Vb Vk tnb accb rhb whb B0 HLb w sub n HI Hnlp Hi Hb)
+    destruct (backup_required_some base Vb Vk tnb accb rhb whb hid anc B0 HLb w sub n HI Hnlp Hi Hb)
       as (fi & w1 & Hrun1 & Hsa1 & Him).
     pose proof (Inv_transfer Vb Vk B0 w w1 HI Hsa1) as HI1.
     pose proof Hsa1 as (HVb1 & HVk1 & Hi1 & Hc1 & Hf1).
@@ -626,14 +629,14 @@ Section TrySafe.
         { rewrite HVk1. eapply backup_sdirect; eassumption. }
         assert (Hnone1 : Vk w1 !! sub = None).
         { apply (untracked_backup_none Vb Vk B0); assumption. }
-        destruct (copy_dir_spec backup Vk Vb tnk acck rhk whk Lk w1 sub fi
-                    Hq1 (inv_wf_k _ _ _ _ HI1) Hdir1 Hne Hk Hu Hg (or_introl Hnone1))
+        destruct (copy_dir_spec backup Vk Vb tnk acck rhk whk nohid nohid Lk w1 sub fi
+                    Hq1 (inv_wf_k _ _ _ _ HI1) Hdir1 Hne Hk Hu Hg (or_introl Hnone1) (not_nohid _))
           as (w2 & m' & Hrun2 & _).
         eapply safe_bind_ok; [exact (try_ok _ w1 w2 tt Hrun2) | |].
         * apply safe_try. eapply safe_mono;
-            [| exact (copy_dir_safe backup Vk Vb tnk acck rhk whk Lk HCk Kdir w1 sub fi
+            [| exact (copy_dir_safe backup Vk Vb tnk acck rhk whk nohid nohid Lk HCk Kdir w1 sub fi
                         Hq1 (inv_wf_k _ _ _ _ HI1) Hdir1 Hne Hk Hu Hg (or_introl Hnone1)
-                        (or_introl Hnone1) (fun md => or_intror (ex_intro _ md eq_refl)))].
+                        (or_introl Hnone1) (fun md => or_intror (ex_intro _ md eq_refl)) (not_nohid _))].
           intros wq (Hsr & Heqv & HK).
           destruct (untracked_orig w1 sub (Dir m) HI1 Hun1 Hb1) as (n0 & Hn0 & He).
           apply (rec_mid w1 wq sub n0 HI1 Hun1 Hne (proj1 Hsr) Heqv Hn0).
@@ -663,7 +666,7 @@ Section TrySafe.
       assert (Hanc : Forall (tracked w) (ancestors sub)).
       { apply List.Forall_forall. intros q Hq. rewrite List.Forall_forall in Hpre. apply Hpre.
         exact (cands_split_ancestors dp pre rest sub q Hc (eq_sym E) Hq). }
-      destruct (bd_body_spec base backup Vb Vk tnb tnk accb acck rhb rhk whb whk B0 HLb HLk HwfB0
+      destruct (bd_body_spec base backup Vb Vk tnb tnk accb acck rhb rhk whb whk hid anc B0 HLb HLk HwfB0
                   w sub HI Hnlp Hanc Hnl)
         as (r1 & w1 & Hrun1 & Hnh1 & HI1 & Hext1 & Htr1 & Hok1).
       cbn [miter].
@@ -727,7 +730,7 @@ Section TrySafe.
     safe recov (tb_file base backup p fi) w.
   Proof.
     intros HI Hnlp Hun Hb Him Hanc. unfold tb_file.
-    destruct (law_open_file _ _ _ _ _ _ _ Lb w p m c (inv_quiet _ _ _ _ HI) (inv_wf_b _ _ _ _ HI) Hnlp Hb)
+    destruct (law_open_file _ _ _ _ _ _ _ _ _ Lb w p m c (inv_quiet _ _ _ _ HI) (inv_wf_b _ _ _ _ HI) Hnlp Hb)
       as (sf & (w1 & Hrun1 & HVb1 & Hsr1) & Hrh).
     pose proof (same_all_base Vb Vk w w1 HVb1 Hsr1) as Hsa1.
     pose proof (Inv_transfer Vb Vk B0 w w1 HI Hsa1) as HI1.
@@ -744,16 +747,16 @@ Section TrySafe.
       destruct He0 as [_ <-]. exact (Hsmall p m0 c Hn0). }
     pose proof (backup_sdirect Vb Vk B0 HwfB0 w1 p _ HI1 Hun1 Hb1 Hanc1) as Hdir1.
     pose proof (untracked_backup_none Vb Vk B0 w1 p HI1 Hun1 Hne) as Hnone1.
-    destruct (copy_file_spec backup base Vk Vb tnk tnb acck accb rhk rhb whk whb Lk Lb
+    destruct (copy_file_spec backup base Vk Vb tnk tnb acck accb rhk rhb whk whb nohid hid nohid anc Lk Lb
                 w1 p fi sf p m c (inv_quiet _ _ _ _ HI1) (inv_wf_k _ _ _ _ HI1) (inv_wf_b _ _ _ _ HI1)
-                Hdir1 (proj1 Him) Hu Hg (or_introl Hnone1) Hrh Hb1 Hsm)
+                Hdir1 (proj1 Him) Hu Hg (or_introl Hnone1) Hrh Hb1 Hsm (not_nohid _))
       as (w2 & m' & Hrun2 & (Hsr2 & Hwf2 & Heqv2) & Hk2 & Hmeta & Hmt).
     pose proof Hsr2 as (HVb2 & Hi2 & Hc2 & Hf2).
     assert (Hun2 : w_infos w2 !! p = None) by (rewrite Hi2; exact Hun1).
     set (w3 := with_infos w2 (<[p := Some fi]> (w_infos w2))).
     assert (HVb3 : Vb w3 = Vb w1).
-    { unfold w3. rewrite (law_infos_indep _ _ _ _ _ _ _ Lb). exact HVb2. }
-    assert (HVk3 : Vk w3 = Vk w2) by (unfold w3; apply (law_infos_indep _ _ _ _ _ _ _ Lk)).
+    { unfold w3. rewrite (law_infos_indep _ _ _ _ _ _ _ _ _ Lb). exact HVb2. }
+    assert (HVk3 : Vk w3 = Vk w2) by (unfold w3; apply (law_infos_indep _ _ _ _ _ _ _ _ _ Lk)).
     assert (Hi3 : w_infos w3 = <[p := Some fi]> (w_infos w1)) by (unfold w3; simpl; rewrite Hi2; reflexivity).
     assert (HI3 : inv w3).
     { apply (Inv_track Vb Vk B0 w1 w3 p (Some fi) HI1 Hun1 Hi3 HVb3).
@@ -771,10 +774,11 @@ Section TrySafe.
     { apply safe_call; [apply (claw_open _ _ HCb) | exact (inv_quiet _ _ _ _ HI) | exact (Inv_rec w HI)]. }
     eapply safe_bind_ok; [exact (try_ok _ w1 w2 tt Hrun2) | |].
     { apply safe_try. eapply safe_mono;
-        [| exact (copy_file_safe backup base Vk Vb tnk tnb acck accb rhk rhb whk whb Lk Lb HCk (Kfile c)
+        [| exact (copy_file_safe backup base Vk Vb tnk tnb acck accb rhk rhb whk whb nohid hid nohid anc Lk Lb HCk (Kfile c)
                     w1 p fi sf p m c (inv_quiet _ _ _ _ HI1) (inv_wf_k _ _ _ _ HI1) (inv_wf_b _ _ _ _ HI1)
                     Hdir1 (proj1 Him) Hu Hg (or_introl Hnone1) Hrh Hb1 Hsm (or_introl Hnone1)
-                    (fun m1 c1 Hpre => or_intror (ex_intro _ m1 (ex_intro _ c1 (conj eq_refl Hpre)))))].
+                    (fun m1 c1 Hpre => or_intror (ex_intro _ m1 (ex_intro _ c1 (conj eq_refl Hpre))))
+                    (not_nohid _))].
       intros wq (Hsr & Heqv & HK).
       apply (rec_mid w1 wq p n0 HI1 Hun1 Hne (proj1 Hsr) Heqv Hn0).
       destruct HK as [HN | (m1 & c1 & HS & Hpre)]; [left; exact HN | right].
@@ -803,16 +807,16 @@ Section TrySafe.
     destruct (Hlinks p m0 t Hn0) as (_ & Htnk & Htne & _ & Hacc & Hperm0).
     pose proof (backup_sdirect Vb Vk B0 HwfB0 w p _ HI Hun Hb Hanc) as Hdir.
     pose proof (untracked_backup_none Vb Vk B0 w p HI Hun Hne) as Hnone.
-    destruct (copy_symlink_spec backup base Vk Vb tnk tnb acck accb rhk rhb whk whb Lk Lb
+    destruct (copy_symlink_spec backup base Vk Vb tnk tnb acck accb rhk rhb whk whb nohid hid nohid anc Lk Lb
                 w p fi m t (inv_quiet _ _ _ _ HI) (inv_wf_k _ _ _ _ HI) (inv_wf_b _ _ _ _ HI) Hnlp Hb
-                Hdir Hnone (proj1 Him) Hu Hg Htne Hacc)
+                Hdir Hnone (proj1 Him) Hu Hg Htne Hacc (not_nohid _))
       as (w2 & m' & Hrun2 & _).
     eapply safe_bind_ok; [exact (try_ok _ w w2 tt Hrun2) | |].
     { apply safe_try. eapply safe_mono;
-        [| exact (copy_symlink_safe backup base Vk Vb tnk tnb acck accb rhk rhb whk whb Lk Lb HCk HCb (Klink (tnk t))
+        [| exact (copy_symlink_safe backup base Vk Vb tnk tnb acck accb rhk rhb whk whb nohid hid nohid anc Lk Lb HCk HCb (Klink (tnk t))
                     w p fi m t (inv_quiet _ _ _ _ HI) (inv_wf_k _ _ _ _ HI) (inv_wf_b _ _ _ _ HI) Hnlp Hb
                     Hdir Hnone (proj1 Him) Htne Hacc (or_introl eq_refl)
-                    (fun m1 => or_intror (ex_intro _ m1 eq_refl)))].
+                    (fun m1 => or_intror (ex_intro _ m1 eq_refl)) (not_nohid _))].
       intros wq (Hsr & Heqv & HK).
       apply (rec_mid w wq p (Link m0 t) HI Hun Hne (proj1 Hsr) Heqv Hn0).
       destruct HK as [HN | (m1 & HS)]; [left; exact HN | right].
@@ -840,7 +844,7 @@ Section TrySafe.
       unfold is_dir_info in Ed. destruct (fi_kind fi); [reflexivity | discriminate Ed | discriminate Ed]. }
     destruct (Vb w !! p) as [n|] eqn:Hb.
     2:{ (* did not exist *)
-      destruct (backup_required_none base backup Vb Vk tnb tnk accb acck rhb rhk whb whk B0 HLb HLk
+      destruct (backup_required_none base backup Vb Vk tnb tnk accb acck rhb rhk whb whk hid anc B0 HLb HLk
                   w p HI Hnlp Hi Hb) as (w1 & Hrun1 & HI1 & Hext1 & Htr1).
       pose proof Hext1 as (HVb1 & _ & _).
       assert (Hnlp1 : snolinkpar (Vb w1) p) by (rewrite HVb1; exact Hnlp).
@@ -848,7 +852,7 @@ Section TrySafe.
       apply safe_bind_silent; [| intros x; unfold tb_tail; cbn [negb]; apply silent_ret].
       exact (dirs_phase_safe w1 p (tb_dirpath p None) HI1 Hnlp1 (or_intror eq_refl)). }
     (* exists and is not yet tracked *)
-    destruct (backup_required_some base Vb Vk tnb accb rhb whb B0 HLb w p n HI Hnlp Hi Hb)
+    destruct (backup_required_some base Vb Vk tnb accb rhb whb hid anc B0 HLb w p n HI Hnlp Hi Hb)
       as (fi & w1 & Hrun1 & Hsa1 & Him).
     pose proof (Inv_transfer Vb Vk B0 w w1 HI Hsa1) as HI1.
     pose proof Hsa1 as (HVb1 & HVk1 & Hi1 & Hc1 & Hf1).
@@ -861,7 +865,7 @@ Section TrySafe.
       split; [reflexivity |]. intros n' Hn'. rewrite Hb1 in Hn'. injection Hn' as <-.
       rewrite <- (proj1 Him). unfold is_dir_info in Ed.
       destruct (fi_kind fi); [reflexivity | discriminate Ed | discriminate Ed]. }
-    destruct (dirs_phase base backup Vb Vk tnb tnk accb acck rhb rhk whb whk B0 HLb HLk HwfB0
+    destruct (dirs_phase base backup Vb Vk tnb tnk accb acck rhb rhk whb whk hid anc B0 HLb HLk HwfB0
                 w1 p (tb_dirpath p (Some fi)) HI1 Hnlp1 Hcase)
       as (r & w2 & Hrun2 & Hnh & HI2 & Hext2 & Htr2 & Hkeep & Hok).
     eapply safe_bind_ok; [exact Hrun1 | exact Hreq |]. cbn [fst snd].
@@ -966,9 +970,10 @@ Section OpsSafe.
   Variables tnb tnk : str -> str.
   Variables accb acck : str -> str -> Prop.
   Variables rhb rhk whb whk : fhandle -> str -> nat -> Prop.
+  Variables hid anc : str -> Prop.
   Variable B0 : store.
 
-  Hypothesis HLb : base_laws base Vb Vk tnb accb rhb whb.
+  Hypothesis HLb : base_laws base Vb Vk tnb accb rhb whb hid anc.
   Hypothesis HLb2 : base_laws2 base Vb Vk tnb accb rhb whb.
   Hypothesis HLk : backup_laws backup Vb Vk tnk acck rhk whk.
   Hypothesis HCb : api_crash_laws base Vb.
@@ -977,18 +982,18 @@ Section OpsSafe.
   Hypothesis Hsmall : all_small B0.
   Hypothesis HwfB0 : swf B0.
 
-  Let Lb : api_laws base Vb Vk tnb accb rhb whb := HLb.
+  Let Lb : api_laws base Vb Vk tnb accb rhb whb hid anc := HLb.
   Let Lb2 : api_laws2 base Vb Vk tnb accb rhb whb := HLb2.
-  Let Lk : api_laws backup Vk Vb tnk acck rhk whk := HLk.
+  Let Lk : api_laws backup Vk Vb tnk acck rhk whk nohid nohid := HLk.
 
   Local Notation recov := (recoverable Vb Vk B0).
   Local Notation inv := (Inv Vb Vk B0).
   Local Notation tb_spec :=
-    (try_backup_specS base backup Vb Vk tnb tnk accb acck rhb rhk whb whk B0 HLb HLk Hlinks Hsmall HwfB0).
+    (try_backup_specS base backup Vb Vk tnb tnk accb acck rhb rhk whb whk hid anc B0 HLb HLk Hlinks Hsmall HwfB0).
   Local Notation tb_safe :=
-    (try_backup_safe base backup Vb Vk tnb tnk accb acck rhb rhk whb whk B0 HLb HLk HCb HCk Hlinks Hsmall HwfB0).
-  Local Notation rp_spec := (real_path_resolved_spec base Vb Vk tnb accb rhb whb Lb).
-  Local Notation rp_safe := (real_path_safe base Vb Vk tnb accb rhb whb Lb HCb).
+    (try_backup_safe base backup Vb Vk tnb tnk accb acck rhb rhk whb whk hid anc B0 HLb HLk HCb HCk Hlinks Hsmall HwfB0).
+  Local Notation rp_spec := (real_path_resolved_spec base Vb Vk tnb accb rhb whb hid anc Lb).
+  Local Notation rp_safe := (real_path_safe base Vb Vk tnb accb rhb whb hid anc Lb HCb).
   Local Notation Irec := (Inv_rec Vb Vk B0).
   Local Notation iq := (inv_quiet Vb Vk B0).
   Local Notation iwb := (inv_wf_b Vb Vk B0).
@@ -1041,7 +1046,7 @@ Section OpsSafe.
     safe recov (h <- guarded base backup n call ;; write_close h d ;;; ret ObUnit) w.
   Proof.
     intros HI Hnlp Hnl Hframe Hwhich Hat. pose proof Hnlp as [[Hc _] _].
-    destruct (guarded_spec base backup Vb Vk tnb tnk accb acck rhb rhk whb whk B0 HLb HLk Hlinks Hsmall HwfB0
+    destruct (guarded_spec base backup Vb Vk tnb tnk accb acck rhb rhk whb whk hid anc B0 HLb HLk Hlinks Hsmall HwfB0
                 call w n [n] HI Hnlp (incl_self_cands n Hc) Hframe)
       as (r & w' & w2 & Hrun & Hnh & HI2 & Hext & Hi & _ & Hcase).
     eapply safe_bind_run; [exact Hrun | apply guarded_safe; assumption |].
@@ -1052,7 +1057,7 @@ Section OpsSafe.
     pose proof Hfr as (_ & Hwf' & _).
     pose proof (fr_quiet Vb Vk w2 w' [n] (iq w2 HI2) Hfr) as Hq'.
     destruct (framed_fr Vb Vk _ _ _
-                (law_user_handle _ _ _ _ _ _ _ Lb w2 n (MOk h) w' (iq w2 HI2) (iwb w2 HI2)
+                (law_user_handle _ _ _ _ _ _ _ _ _ Lb w2 n (MOk h) w' (iq w2 HI2) (iwb w2 HI2)
                    Hnlp2 Hnl2 (Hwhich w2 (MOk h) w' Hcall) h d eq_refl Hq' Hwf'))
       as (r4 & w4 & Hrun4 & Hnh4 & Hfr4).
     apply safe_bind_silent; [| intros x; apply silent_ret].
@@ -1198,9 +1203,9 @@ Section OpsSafe.
 
   Local Notation okd' := (okd Vb).
   Local Notation wspec :=
-    (walk_spec base backup Vb Vk tnb tnk accb acck rhb rhk whb whk B0 HLb HLk Hlinks Hsmall HwfB0 HLb2).
+    (walk_spec base backup Vb Vk tnb tnk accb acck rhb rhk whb whk hid anc B0 HLb HLk Hlinks Hsmall HwfB0 HLb2).
   Local Notation rm_under :=
-    (remove_under base backup Vb Vk tnb tnk accb acck rhb rhk whb whk B0 HLb HLk Hlinks Hsmall HwfB0).
+    (remove_under base backup Vb Vk tnb tnk accb acck rhb rhk whb whk hid anc B0 HLb HLk Hlinks Hsmall HwfB0).
 
   Lemma walk_safe (n : str) : n <> s_root ->
     forall (fuel : nat) (path : str) (info : finfo) (acc : list str) (w : world),
@@ -1244,13 +1249,13 @@ Section OpsSafe.
     assert (Hls : safe recov (a_lstat base (join2 path nm)) w0).
     { apply safe_call; [apply (claw_lstat _ _ HCb) | exact Hq0 | exact (Irec w0 HI0)]. }
     destruct (Vb w0 !! join2 path nm) as [nd|] eqn:Hb.
-    2:{ destruct (law_lstat_none _ _ _ _ _ _ _ Lb w0 _ Hq0 Hwf0 Hnlf Hb) as (e & w1 & Hrun1 & _).
+    2:{ destruct (law_lstat_none _ _ _ _ _ _ _ _ _ Lb w0 _ Hq0 Hwf0 Hnlf Hb) as (e & w1 & Hrun1 & _).
         assert (Hin : (fi <- a_lstat base (join2 path nm) ;;
                        walk_fold fuel base (join2 path nm) fi (ra_fn base backup) acc0) w0 = (MErr e, w1)).
         { rewrite (bind_err _ _ w0 w1 e Hrun1). reflexivity. }
         eapply safe_bind_run; [exact Hin | eapply safe_bind_err; [exact Hrun1 | exact Hls] |].
         intros a E. discriminate E. }
-    destruct (law_lstat_some _ _ _ _ _ _ _ Lb w0 _ nd Hq0 Hwf0 Hnlf Hb)
+    destruct (law_lstat_some _ _ _ _ _ _ _ _ _ Lb w0 _ nd Hq0 Hwf0 Hnlf Hb)
       as (fi & (w1 & Hrun1 & HV1 & Hsr1) & Him & _).
     pose proof (same_all_base Vb Vk w0 w1 HV1 Hsr1) as Hsa1.
     pose proof (Inv_transfer Vb Vk B0 w0 w1 HI0 Hsa1) as HI1.
@@ -1299,12 +1304,12 @@ Section OpsSafe.
     { apply safe_try. apply safe_call; [apply (claw_lstat _ _ HCb) | exact (iq w1 HI1) | exact (Irec w1 HI1)]. }
     destruct (Vb w !! n) as [nd|] eqn:Hb.
     2:{ assert (Hb1 : Vb w1 !! n = None) by (rewrite HVb1; exact Hb).
-        destruct (law_lstat_none _ _ _ _ _ _ _ Lb w1 n (iq w1 HI1) (iwb w1 HI1) Hnlp1 Hb1)
+        destruct (law_lstat_none _ _ _ _ _ _ _ _ _ Lb w1 n (iq w1 HI1) (iwb w1 HI1) Hnlp1 Hb1)
           as (e & w2 & Hrun2 & Hnf & _).
         eapply safe_bind_ok; [exact (try_err _ w1 w2 e Hrun2) | exact Hls1 |]. cbv beta iota.
         unfold not_found in Hnf. rewrite Hnf. apply safe_ret. }
     assert (Hb1 : Vb w1 !! n = Some nd) by (rewrite HVb1; exact Hb).
-    destruct (law_lstat_some _ _ _ _ _ _ _ Lb w1 n nd (iq w1 HI1) (iwb w1 HI1) Hnlp1 Hb1)
+    destruct (law_lstat_some _ _ _ _ _ _ _ _ _ Lb w1 n nd (iq w1 HI1) (iwb w1 HI1) Hnlp1 Hb1)
       as (fi & (w2 & Hrun2 & HV2 & Hsr2) & Him & _).
     pose proof (same_all_trans Vb Vk w w1 w2 Hsa1 (same_all_base Vb Vk w1 w2 HV2 Hsr2)) as Hsa2.
     pose proof (Inv_transfer Vb Vk B0 w w2 HI Hsa2) as HI2. pose proof Hsa2 as (HVb02 & _).
@@ -1313,7 +1318,7 @@ Section OpsSafe.
     destruct (is_dir_info fi) eqn:Ed; cbn [negb].
     2:{ exact (remove_safe w2 n HI2 Hnlp2). }
     assert (Hb2 : Vb w2 !! n = Some nd) by (rewrite HVb02; exact Hb).
-    destruct (law_lstat_some _ _ _ _ _ _ _ Lb w2 n nd (iq w2 HI2) (iwb w2 HI2) Hnlp2 Hb2)
+    destruct (law_lstat_some _ _ _ _ _ _ _ _ _ Lb w2 n nd (iq w2 HI2) (iwb w2 HI2) Hnlp2 Hb2)
       as (fi' & (w3 & Hrun3 & HV3 & Hsr3) & Him' & _).
     pose proof (same_all_trans Vb Vk w w2 w3 Hsa2 (same_all_base Vb Vk w2 w3 HV3 Hsr3)) as Hsa3.
     pose proof (Inv_transfer Vb Vk B0 w w3 HI Hsa3) as HI3. pose proof Hsa3 as (HVb03 & _).
@@ -1350,7 +1355,7 @@ Section OpsSafe.
       cbn [step].
     - (* Create *)
       apply (handle_op_safe (a_create base) w n d HI Hn (List.Forall_inv (Hfol eq_refl))).
-      + intros w2 Hq2 Hwf2 HVb2. apply (law_user_create _ _ _ _ _ _ _ Lb w2 n Hq2 Hwf2);
+      + intros w2 Hq2 Hwf2 HVb2. apply (law_user_create _ _ _ _ _ _ _ _ _ Lb w2 n Hq2 Hwf2);
           rewrite HVb2; [exact Hn | exact (List.Forall_inv (Hfol eq_refl))].
       + intros w2 r w' Hcall. right. exact Hcall.
       + apply (claw_create _ _ HCb).
@@ -1359,7 +1364,7 @@ Section OpsSafe.
       + exact (ro_open_write_safe w n d HI Hn).
       + cbn [negb] in Hfol.
         apply (handle_op_safe (fun rn => a_openfile base rn fl perm) w n d HI Hn (List.Forall_inv (Hfol eq_refl))).
-        * intros w2 Hq2 Hwf2 HVb2. apply (law_user_openfile _ _ _ _ _ _ _ Lb w2 n fl perm Hq2 Hwf2);
+        * intros w2 Hq2 Hwf2 HVb2. apply (law_user_openfile _ _ _ _ _ _ _ _ _ Lb w2 n fl perm Hq2 Hwf2);
             rewrite HVb2; [exact Hn | exact (List.Forall_inv (Hfol eq_refl))].
         * intros w2 r w' Hcall. left. exists fl, perm. exact Hcall.
         * apply (claw_openfile _ _ HCb).
@@ -1406,32 +1411,32 @@ Proof.
 Qed.
 
 Theorem try_backup_always :
-  forall base backup Vb Vk tnb tnk accb acck rhb rhk whb whk B0,
-  try_backup_always_stmt base backup Vb Vk tnb tnk accb acck rhb rhk whb whk B0.
+  forall base backup Vb Vk tnb tnk accb acck rhb rhk whb whk hid anc B0,
+  try_backup_always_stmt base backup Vb Vk tnb tnk accb acck rhb rhk whb whk hid anc B0.
 Proof.
-  intros base backup Vb Vk tnb tnk accb acck rhb rhk whb whk B0.
+  intros base backup Vb Vk tnb tnk accb acck rhb rhk whb whk hid anc B0.
   unfold try_backup_always_stmt. cbv zeta. intros HLb HLk HCb HCk Hlinks Hsmall HwfB0 w p HI Hnlp.
   apply (safe_always (recoverable Vb Vk B0) (recoverable Vb Vk B0) _ w
-           (try_backup_safe base backup Vb Vk tnb tnk accb acck rhb rhk whb whk B0
+           (try_backup_safe base backup Vb Vk tnb tnk accb acck rhb rhk whb whk hid anc B0
               HLb HLk HCb HCk Hlinks Hsmall HwfB0 w p HI Hnlp)).
   - intros w1 E.
-    destruct (try_backup_specS base backup Vb Vk tnb tnk accb acck rhb rhk whb whk B0
+    destruct (try_backup_specS base backup Vb Vk tnb tnk accb acck rhb rhk whb whk hid anc B0
                 HLb HLk Hlinks Hsmall HwfB0 w p HI Hnlp) as (r & w' & Hrun & Hnh & _).
     rewrite Hrun in E. injection E as Er _. exact (Hnh Er).
   - intros x Hx. exact (proj1 (recoverable_set_crash base backup Vb Vk B0 HCb HCk x None) Hx).
 Qed.
 
 Theorem step_always :
-  forall base backup Vb Vk tnb tnk accb acck rhb rhk whb whk B0,
-  step_always_stmt base backup Vb Vk tnb tnk accb acck rhb rhk whb whk B0.
+  forall base backup Vb Vk tnb tnk accb acck rhb rhk whb whk hid anc B0,
+  step_always_stmt base backup Vb Vk tnb tnk accb acck rhb rhk whb whk hid anc B0.
 Proof.
-  intros base backup Vb Vk tnb tnk accb acck rhb rhk whb whk B0.
+  intros base backup Vb Vk tnb tnk accb acck rhb rhk whb whk hid anc B0.
   unfold step_always_stmt. cbv zeta. intros HLb HLb2 HLk HCb HCk Hlinks Hsmall HwfB0 o w HI Hcov.
   apply (safe_always (recoverable Vb Vk B0) (recoverable Vb Vk B0) _ w
-           (step_safe base backup Vb Vk tnb tnk accb acck rhb rhk whb whk B0
+           (step_safe base backup Vb Vk tnb tnk accb acck rhb rhk whb whk hid anc B0
               HLb HLb2 HLk HCb HCk Hlinks Hsmall HwfB0 o w HI Hcov)).
   - intros w1 E.
-    destruct (step_spec base backup Vb Vk tnb tnk accb acck rhb rhk whb whk B0
+    destruct (step_spec base backup Vb Vk tnb tnk accb acck rhb rhk whb whk hid anc B0
                 HLb HLb2 HLk Hlinks Hsmall HwfB0 o w HI Hcov) as (r & w' & Hrun & Hnh & _).
     rewrite Hrun in E. injection E as Er _. exact (Hnh Er).
   - intros x Hx. exact (proj1 (recoverable_set_crash base backup Vb Vk B0 HCb HCk x None) Hx).
@@ -1439,8 +1444,8 @@ Qed.
 
 (** along a history: wherever the run with a crash point stops *)
 Lemma good_run_always :
-  forall base backup Vb Vk tnb tnk accb acck rhb rhk whb whk B0,
-  base_laws base Vb Vk tnb accb rhb whb -> base_laws2 base Vb Vk tnb accb rhb whb ->
+  forall base backup Vb Vk tnb tnk accb acck rhb rhk whb whk hid anc B0,
+  base_laws base Vb Vk tnb accb rhb whb hid anc -> base_laws2 base Vb Vk tnb accb rhb whb ->
   backup_laws backup Vb Vk tnk acck rhk whk ->
   api_crash_laws base Vb -> api_crash_laws backup Vk ->
   links_ok tnb tnk accb acck B0 -> all_small B0 -> swf B0 ->
@@ -1449,19 +1454,19 @@ Lemma good_run_always :
   recoverable Vb Vk B0 wh /\
   (~ In MHalt outs -> wh = set_crash w' (Some k)).
 Proof.
-  intros base backup Vb Vk tnb tnk accb acck rhb rhk whb whk B0 HLb HLb2 HLk HCb HCk Hlinks Hsmall HwfB
+  intros base backup Vb Vk tnb tnk accb acck rhb rhk whb whk hid anc B0 HLb HLb2 HLk HCb HCk Hlinks Hsmall HwfB
          w ops w' Hrun.
   induction Hrun as [w | w o ops r w1 w2 Hcov Hstep Hks Hrest IH]; intros HI k outs wh Hk.
   - cbn [run_ops] in Hk. injection Hk as <- <-. split; [| intros _; reflexivity].
     apply (proj2 (recoverable_set_crash base backup Vb Vk B0 HCb HCk w (Some k))).
     exact (Inv_rec Vb Vk B0 w HI).
-  - destruct (step_spec base backup Vb Vk tnb tnk accb acck rhb rhk whb whk B0
+  - destruct (step_spec base backup Vb Vk tnb tnk accb acck rhb rhk whb whk hid anc B0
                 HLb HLb2 HLk Hlinks Hsmall HwfB o w HI Hcov) as (r' & w1' & Hstep' & Hnh & Hinv & _).
     rewrite Hstep in Hstep'. injection Hstep' as Er Ew. subst r' w1'.
     pose proof (Hinv Hks) as HI1.
     cbn [run_ops] in Hk.
     destruct (step base backup o (set_crash w (Some k))) as [rk wk] eqn:Hsk.
-    destruct (step_safe base backup Vb Vk tnb tnk accb acck rhb rhk whb whk B0
+    destruct (step_safe base backup Vb Vk tnb tnk accb acck rhb rhk whb whk hid anc B0
                 HLb HLb2 HLk HCb HCk Hlinks Hsmall HwfB o w HI Hcov k rk wk Hsk)
       as [[-> Hrec] | (w1' & Hq & ->)].
     + injection Hk as <- <-. split.
@@ -1476,14 +1481,14 @@ Proof.
 Qed.
 
 Theorem run_always :
-  forall base backup Vb Vk tnb tnk accb acck rhb rhk whb whk B0,
-  run_always_stmt base backup Vb Vk tnb tnk accb acck rhb rhk whb whk B0.
+  forall base backup Vb Vk tnb tnk accb acck rhb rhk whb whk hid anc B0,
+  run_always_stmt base backup Vb Vk tnb tnk accb acck rhb rhk whb whk hid anc B0.
 Proof.
-  intros base backup Vb Vk tnb tnk accb acck rhb rhk whb whk B0.
+  intros base backup Vb Vk tnb tnk accb acck rhb rhk whb whk hid anc B0.
   unfold run_always_stmt. cbv zeta. intros HLb HLb2 HLk HCb HCk Hsmall w0 ops w Hinit Hrun k outs wh Hk.
   pose proof Hinit as (_ & _ & _ & HwfB & Hlinks & _ & _).
   pose proof (initial_inv_spec Vb Vk tnb tnk accb acck B0 w0 Hinit) as HI0.
-  exact (proj1 (good_run_always base backup Vb Vk tnb tnk accb acck rhb rhk whb whk B0
+  exact (proj1 (good_run_always base backup Vb Vk tnb tnk accb acck rhb rhk whb whk hid anc B0
                   HLb HLb2 HLk HCb HCk Hlinks Hsmall HwfB w0 ops w Hrun HI0 k outs wh Hk)).
 Qed.
 
